@@ -122,6 +122,13 @@ def run(ctx):
             ctx.violation("lockstep-crash:%s" % pid,
                           "real run of %s leaves the frame discipline: %s" % (pid, lock),
                           {"program": pid, "lockstep": lock, "verify": ver})
+        elif lock.startswith("LOCKSTEP kinds"):
+            stats["lockstep_mismatch"] += 1
+            ctx.correspondence_broken("shape-machine-slot-kinds-vs-vm:%s" % pid,
+                                      {"program": pid, "lockstep": lock,
+                                       "meaning": "the VM tags a stack slot (GC_MEM_ADDR root / GC_MEM_STACK saved register / GC_MEM_IP) "
+                                                  "differently from the frame layout of the shape machine; whether a live cell can be "
+                                                  "reclaimed because of it is searched by C09's schedule family (checks/parts/gcschedule.py)"})
         elif lock.startswith("LOCKSTEP mismatch") or lock.startswith("LOCKSTEP aritystuck") or lock == "timeout":
             stats["lockstep_mismatch"] += 1
             ctx.correspondence_broken("shape-machine-vs-vm:%s" % pid, {"program": pid, "lockstep": lock})
